@@ -4,6 +4,7 @@
 import DuckModel.Expansion
 import DuckModel.Spec.Template
 import DuckModel.Lemmas.ExpansionLemmas
+import DuckModel.Props.C02Text
 
 namespace Duck
 open Duck.Spec
